@@ -32,6 +32,12 @@ def errors_not_swallowed(ctx, rule="C17-d"):
                 continue
             n += 1
             bad = [t for t in p.tests if t[3][0] == "discr" and t[2] == "Err" and ("poll@" in t[1] or "quinn" in t[1])]
+            if b.name == "poll_data":
+                # the chunk result that came out of the read future must have been looked at, and found Ok
+                seen = [t for t in p.tests if t[3][0] == "discr" and t[2] in ("Ok", "Continue") and "poll@" in t[1] and "<Ready>" in t[1]]
+                ctx.check(bool(seen), rule, b.key, "data / end of stream is answered only after the read's result was found Ok",
+                          "%s answers %s on a path that never examined the result of the read it completed: a reset, a stop or a lost "
+                          "connection that ended that read is reported as data or as a clean end of stream" % (b.key, sh[:30]), "", None, p.describe())
             ctx.check(not bad, rule, b.key, "success is answered only when no Quinn operation failed on the path",
                       "%s answers %s on a path where %s was Err: a Quinn error (reset, stop, connection loss) is reported to h3 as data / end of "
                       "stream / success instead of through the conversion table" % (b.key, sh[:30], [t[1][-70:] for t in bad][:1]), "", None, p.describe())
